@@ -104,18 +104,34 @@ def run_check(ctx, mod, ev_path):
             mod.correspondence(ctx)
         except RuntimeError as e:
             ctx.broke("correspondence", "driver", str(e))
+        except vlib.Timeout:
+            raise
+        except Exception as e:  # noqa — the harness could not drive the implementation any more (changed attribute, changed return shape ...)
+            ctx.broke("correspondence", "harness could not drive the implementation", vlib.short_tb(e))
     elif not model_ok:
         ctx.notes.append("model does not build: correspondence skipped")
 
     # 4: oracle on the implementation ---------------------------------------------------------------
+    oracle_ok = True
     if hasattr(mod, "oracle"):
-        mod.oracle(ctx, widen=1)
+        try:
+            mod.oracle(ctx, widen=1)
+        except vlib.Timeout:
+            raise
+        except Exception as e:  # noqa
+            oracle_ok = False
+            ctx.broke("oracle", "harness could not drive the implementation", vlib.short_tb(e))
 
     # 5: a broken proof / tie triggers the search for a concrete failing input ------------------------
     searched = False
-    if ctx.broken and not ctx.violations and hasattr(mod, "oracle"):
+    if ctx.broken and not ctx.violations and hasattr(mod, "oracle") and oracle_ok:
         searched = True
-        mod.oracle(ctx, widen=spec.get("search_widen", 8))
+        try:
+            mod.oracle(ctx, widen=spec.get("search_widen", 8))
+        except vlib.Timeout:
+            raise
+        except Exception as e:  # noqa
+            ctx.broke("oracle", "harness could not drive the implementation (widened search)", vlib.short_tb(e))
 
     known = vlib.load_known()
     listed, unlisted = [], []
